@@ -59,6 +59,7 @@ _SPEC_ASSUMPTIONS = [
     "what the code does with an error is modelled by hand: the failing task's node becomes Dead and nothing leaves Dead (the deferred close(done) is skipped when err != nil), the waiting parents are abandoned; syncutil.Go returning context.Cause(ctx) is modelled as 'Ret ok needs no cancellation, no prologue failure and no dead node'. Tied to copy.go / extendedcopy.go / limit.go on every run by trace acceptance of the recorded runs (a push of a parent of a dead node, or a successful return after a fault/cancel, is rejected) and by the independent oracle",
     "ExtendedCopyGraph's outer fan-out is a virtual super-root: a node that is not content (hypothesis ext_ok: no store holds it), initially Waiting, whose successors are the roots; findRoots itself is C03's subject: the roots given to the model are the generator's ground truth (ancestors of the start node without predecessors)",
     "content.Successors = the generator's edge list (parameter g_succ); standing hypothesis as in C01: during the call the destination is written only by the call itself and never deletes, the source is immutable; mt_consistent (digest-keyed destinations) is a hypothesis of the push-ordering / completion theorems, not of C02_closed_always; the generators of this part produce no two nodes with one digest",
+    "user callbacks return nil or an ordinary error: a user PreCopy answering oras.SkipNode (by design: the node is marked done WITHOUT being transferred, so a caller can make the destination non-closed on purpose) is outside the model and never generated; prepareCopy's own internal use of SkipNode (ReferencePusher root) is modelled",
     "a failing dst.Push stores the content only when the fault is injected after the real push (stored flag of PuX); a real store failing on its own is assumed not to have stored the content",
     "faults at registry.Mounter.Mount and at MountFrom/OnMounted are not injected (the model has no fault event for them; dst.Tag of Copy has one: TagX); 'bounded time' is the protocol part's theorem (C02_terminates) plus the 20 s watchdog here; goroutine scheduling: interleavings of visible events are quantified over, internal races are exercised (free-running goroutines with PRNG latencies and slow nodes, PRNG-controlled schedules under testing/synctest with slow nodes released last), not enumerated",
 ]
